@@ -1,17 +1,17 @@
 SPECIFICATION Spec
 CONSTANTS
-  Construct = "map"
-  MaxN = 3
+  Construct = "gen"
+  MaxN = 5
   MaxK = 2
-  FKinds = {"err"}
+  FKinds = {"panicW_EOF"}
   MaxFaults = 1
-  OptSet <- OptsCore
+  OptSet <- OptsAbort
   AbortCancels = TRUE
   GenChecksCtx = TRUE
-  GenEofByIs = FALSE
+  GenEofByIs = TRUE
   ResolverSame = TRUE
   ExcludedConsulted = TRUE
-  Mut = "swap"
+  Mut = "none"
 INVARIANTS TypeOK NothingSwallowed NeverReported NilIffNoFailure AtMostOnce ContinueAll AbortedWorkerStops AbortBound NoStall AllDone
 PROPERTIES Settles
 CHECK_DEADLOCK FALSE
